@@ -417,6 +417,8 @@ class CEmitter:
             cond = self.ex(s[2]) if s[2] is not None else '1'
             out.append('%s  while (%s)' % (p, cond))
             lc = s[5] if len(s) > 5 else None
+            if not lc:
+                lc = getattr(self, 'loop_annot', {}).get(getattr(self, '_cur_fn', None))
             if lc:
                 for c in lc:
                     out.append('%s    %s' % (p, c))
@@ -454,10 +456,15 @@ class CEmitter:
         if contract:
             lines += contract
         lines.append('{')
+        # ghost statements (specification only) requested for this function by the obligation being generated
+        for g in getattr(self, 'prologue', {}).get(f.cname, ()):
+            lines.append('  /* ghost */ ' + g)
         for n, t in f.temps:
             lines.append('  %s %s;' % (self.ctype(t), n))
+        self._cur_fn = f.cname
         for s in f.body:
             lines += self.st(s, 1)
+        self._cur_fn = None
         lines.append('}')
         return '\n'.join(lines)
 
